@@ -105,7 +105,7 @@ def fmtPascal (name : Name) : Name := ((splitWords name).map capitalize).flatten
 
 /-- `_reserved_keywords` (pinned to the translator's table in Props/C14.lean) -/
 def reservedKeywords : List Name :=
-  ["break".toList, "class".toList, "continue".toList, "for".toList, "pass".toList, "while".toList, "async".toList]
+  ["async".toList, "break".toList, "class".toList, "continue".toList, "for".toList, "pass".toList, "while".toList]
 
 def renameIfReserved (s : Name) : Name := if reservedKeywords.contains s then s ++ ['_'] else s
 
